@@ -538,7 +538,7 @@ def process_command(path, abort_on_error=True):
                 abort_on_error=abort_on_error,
             )
             size_constraints.append(authorization_area_constraint)
-        if field.name == "authorizationArea":
+        if field.name == "authorizationArea" and element_value is not None:
             parameter_encryption = (
                 is_parameter_encryption(authorizationArea=element_value) or None
             )
@@ -647,7 +647,7 @@ def process_response(
                 abort_on_error=abort_on_error,
             )
             size_constraints.append(parameter_size_constraint)
-        if field.name == "authorizationArea":
+        if field.name == "authorizationArea" and element_value is not None:
             parameter_encryption_expected = (
                 is_parameter_encryption(
                     authorizationArea=element_value, for_response=True
